@@ -171,6 +171,20 @@ CLAIMS.update({
    technique="Lean 4 proof (decision logic over byte strings) + call-site facts regenerated from source + sentinel-PATH differential runs"),
 })
 
+# functions TRANSLATED from the Go source on every run (extract/funcs.go -> Extracted/Funcs.lean) and proved equal to the model
+XLATE = {
+ 'C02': "Translated code (regenerated from /repo on every run, Tie/C02): stream.incNonce / setLastChunkFlag / nonceIsZero proved, for every chunk index below 2^88, to be the model's nonce arithmetic (incNonce_tie: chunk i to chunk i+1 with all eleven counter bytes carrying; incNonce_wrap: its panic is exactly the counter wrap).",
+ 'C06': "Translated code (Tie/C06): stream.incNonce and setLastChunkFlag, regenerated from /repo on every run, proved to step the 88-bit big-endian counter by one and to set only the flag byte.",
+ 'C07': "Translated code (Tie/C07): format.isValidString (which ranges over RUNES) and format.splitArgs, regenerated from /repo on every run, proved equal to the model's validString / splitSp for every byte string.",
+ 'C09': "Translated code (Tie/C09): ALL of internal/bech32 (polymod, hrpExpand, verifyChecksum, createChecksum, convertBits, Encode, Decode) and plugin Encode/Parse{Identity,Recipient} are translated from /repo statement by statement on every run and PROVED, for every byte string incl. non-ASCII and invalid UTF-8, to return exactly what the model returns (decode_tie, encode_tie, parseIdentity_tie, ...): the theorems above are therefore about the functions as they stand in the source.",
+ 'C11': "Translated code (Tie/C11): age.slicesEqual, regenerated from /repo on every run, proved to be list equality.",
+ 'C17': "Translated code (Tie/C17): plugin.validPluginName, ParseRecipient, ParseIdentity and EncodeIdentity are translated from /repo on every run and proved equal to the model for every byte string (invalid UTF-8 included).",
+}
+for _k, _v in XLATE.items():
+    CLAIMS[_k]['text'] += " " + _v
+    CLAIMS[_k]['technique'] += " + Go functions translated to Lean on every run and proved equal to the model (Tie)"
+    CLAIMS[_k]['note'] += " Translator (harness/cmd/extract/funcs.go) and the semantics of the translated Go fragment (lean/AgeModel/GoSem.lean: wrap-around integers, Go shifts, rune decoding, strings.* stubs, opaque beyond ASCII; int overflow not modelled) are trusted; the stubs are compared with Go on arbitrary byte strings in suite C09."
+
 def main():
     hook = subprocess.run(['git', '-C', '/repo', 'log', '--format=%h', '--grep=^verifhook', '-n', '5'], capture_output=True, text=True).stdout.split()
     m = {
